@@ -755,7 +755,18 @@ def gen_dataset(spec: Spec, ddesc):
         a = -rng.uniform(0.01 * sc, sc, size=shape)
       else:
         a = np.full(shape, sc * (1 if k % 2 == 0 else -0.5))
-      sample[nm] = a.astype(np.float32)
+      a = a.astype(np.float32)
+      form = ddesc.get('form', 'c')
+      if form == 'fortran' and a.ndim >= 2:
+        a = np.asfortranarray(a)                       # same values, other memory order
+      elif form == 'view':
+        big = np.zeros(tuple(d + 2 for d in a.shape), dtype=np.float32)
+        sl = tuple(slice(1, 1 + d) for d in a.shape)
+        big[sl] = a
+        a = big[sl]                                    # non-contiguous view into a larger array
+      elif form == 'readonly':
+        a.setflags(write=False)
+      sample[nm] = a
     out.append(sample)
   return out
 
@@ -765,4 +776,5 @@ def draw_dataset_desc(r: random.Random, model_idx, n=None):
   return dict(model=model_idx, seed=r.randrange(1 << 30), n=n,
               dist=r.choices(['normal', 'uniform', 'onesided', 'const', 'relu', 'zero_first', 'negative'],
                              [10, 6, 4, 2, 2, 1, 1])[0],
-              scales=[round(r.uniform(0.05, 8.0), 3) for _ in range(n)])
+              scales=[round(r.uniform(0.05, 8.0), 3) for _ in range(n)],
+              form=r.choices(['c', 'fortran', 'view', 'readonly'], [14, 2, 2, 2])[0])
